@@ -7,14 +7,15 @@ import (
 	"encoding/json"
 	"fmt"
 	"os"
+	"sort"
 )
 
 type row struct {
-	M  string `json:"m"`
-	T  string `json:"t"`
-	C  string `json:"c"`
-	M2 string `json:"m2"`
-	Op string `json:"op"`
+	M   string `json:"m"`
+	T   string `json:"t"`
+	C   string `json:"c"`
+	M2  string `json:"m2"`
+	Op  string `json:"op"`
 	Tok string `json:"tok"` // token label of the transition (specs/TokenStream.tla); absent in older exports
 }
 type classRow struct {
@@ -63,6 +64,9 @@ type export struct {
 	NumDone []string   `json:"numdone"`
 }
 
+var canonModes = []string{"S", "AFT", "SE", "REJ", "CL", "V", "T1", "NI", "L1", "F1", "A0", "K0", "NM", "N0", "K", "U1", "U2", "U3", "U4", "NE", "ND", "NF", "NX", "NS", "T2", "T3", "F2", "F3", "F4", "L2", "L3"}
+var canonClasses = []string{"sp", "t", "b", "r", "s", "d", "n", "e", "a", "f", "lb", "rb", "lc", "rc", "cm", "cl", "q", "bs", "sl", "mi", "pl", "dt", "z", "E", "l", "u", "hl", "hu", "wc", "NUL", "CTL", "HI", "oth"}
+
 var topIdx = map[string]int{"-": TopEmpty, "A": TopA, "K": TopK, "O": TopO}
 var TopName = []string{"-", "A", "K", "O"}
 var opIdx = map[string]int{"none": OpNone, "pushA": OpPushA, "pushK": OpPushK, "pop": OpPop, "toO": OpToO, "toK": OpToK}
@@ -78,6 +82,26 @@ func Load(path string) (*Table, error) {
 		return nil, err
 	}
 	t := &Table{ModeIdx: map[string]int{}, ClassIdx: map[string]int{}, MaxDepth: 10000}
+	// Mode and class indexes must not depend on the order in which TLC happens to print the rows (a set): the fixed-seed
+	// generators pick classes by index.  Names are numbered in this canonical order first; unknown names follow sorted.
+	for _, m := range canonModes {
+		t.ModeIdx[m] = len(t.Modes)
+		t.Modes = append(t.Modes, m)
+	}
+	for _, c := range canonClasses {
+		t.ClassIdx[c] = len(t.Classes)
+		t.Classes = append(t.Classes, c)
+	}
+	sort.Slice(e.Table, func(i, j int) bool {
+		a, b := e.Table[i], e.Table[j]
+		if a.M != b.M {
+			return a.M < b.M
+		}
+		if a.T != b.T {
+			return a.T < b.T
+		}
+		return a.C < b.C
+	})
 	for _, r := range e.Table {
 		for _, m := range []string{r.M, r.M2} {
 			if _, ok := t.ModeIdx[m]; !ok {
@@ -216,17 +240,17 @@ func (t *Table) Accepting(s *State) bool {
 
 // Complete reports that a top-level value is complete and self-delimited (mode AFT, empty stack).
 func (t *Table) CompleteValue(s *State) bool { return len(s.Stack) == 0 && s.Mode == t.Aft }
-func (t *Table) NumDone(m int) bool         { return t.numDone[m] }
+func (t *Table) NumDone(m int) bool          { return t.numDone[m] }
 
 // Verdict of a whole byte string.
 type Verdict struct {
 	Accept bool
 	// when !Accept: where and why the reference rejects
-	At    int    // offset of the rejecting byte, len(b) for rejection at end of input
-	Mode  string // mode before the rejecting byte / at end of input
-	Top   string
-	Class string // class of the rejecting byte, "EOF" at end of input
-	Depth bool   // rejected by the nesting limit
+	At           int    // offset of the rejecting byte, len(b) for rejection at end of input
+	Mode         string // mode before the rejecting byte / at end of input
+	Top          string
+	Class        string // class of the rejecting byte, "EOF" at end of input
+	Depth        bool   // rejected by the nesting limit
 	MaxDepthSeen int
 }
 
